@@ -1,5 +1,7 @@
 package imagemeta
 
+import "github.com/evanoberholster/imagemeta/exif2"
+
 // C06 - the container does not change the metadata: the same Exif payload in a bare TIFF file, a JPEG APP1 segment, a
 // PNG eXIf chunk and the CMT1 box of a CR3 file yields the same fields (only the image type differs).
 
@@ -59,5 +61,70 @@ func zzC06_containers() {
 		e2, err2 := DecodeHeif(zzReaderOf(b))
 		zzAssert(err2 == nil && zzSameFields(e2, ref), "DecodeHeif: same fields as the bare TIFF payload")
 	}
+	zzReached("end")
+}
+
+// a long out-of-line value (ImageDescription of 1100 bytes: beyond the directory reader's 1024-byte scratch buffer,
+// within the 4096-byte buffered window) decodes alike from every container
+func zzBE32(v int) []byte { return []byte{byte(v >> 24), byte(v >> 16), byte(v >> 8), byte(v)} }
+
+func zzC06_big_N() int { return 6 }
+func zzC06_big() {
+	be := zzPart()%2 == 1
+	const n = 1100
+	t := zzNewTiff(8+2+12+4+n+8, be, 8)
+	t.dir(8, 1, 0)
+	t.ent(8, 0, 0x010e, 2, n, 26)
+	v := make([]byte, n)
+	for i := range v {
+		v[i] = 'a' + byte(i%23)
+	}
+	e := zzBytes("s", 4)
+	for _, c := range e {
+		zzAssume(c > ' ' && c < 0x7f)
+	}
+	v[0], v[1], v[n-3], v[n-2], v[n-1] = e[0], e[1], e[2], e[3], 0
+	t.bytes(26, v)
+	p := t.b
+	ref, eref := DecodeTiff(zzReaderOf(p))
+	zzAssert(eref == nil && len(ref.ImageDescription) == n-1 && ref.ImageDescription[0] == e[0] && ref.ImageDescription[n-2] == e[3], "the bare TIFF file reports the long value")
+	var x exif2.Exif
+	var err error
+	switch zzPart() / 2 {
+	case 0:
+		b := []byte{0xff, 0xd8, 0xff, 0xe2, 0xff, 0xff} // a full-size APP2 segment (length field 0xFFFF) comes first
+		seg := make([]byte, 0xffff-2)
+		copy(seg, []byte{0xff, 0xdb, 0x00, 0x02}) // marker-like bytes (DQT headers) all through the skipped payload
+		for n := 4; n < len(seg); n *= 2 {
+			copy(seg[n:], seg[:n])
+		}
+		b = append(b, seg...)
+		b = append(b, 0xff, 0xe1, byte((2+6+len(p))>>8), byte(2+6+len(p)))
+		b = append(b, "Exif\x00\x00"...)
+		b = append(b, p...)
+		b = append(b, 0xff, 0xdb, 0, 2)
+		b = append(b, make([]byte, 70)...)
+		x, err = DecodeJPEG(zzReaderOf(b))
+	case 1:
+		b := []byte("\x89PNG\r\n\x1a\n")
+		b = append(b, zzBE32(len(p))...)
+		b = append(b, 'e', 'X', 'I', 'f')
+		b = append(b, p...)
+		b = append(b, 0, 0, 0, 0)
+		x, err = DecodePng(zzReaderOf(b))
+	default:
+		b := []byte(zzFtypCR3)
+		b = append(b, zzBE32(8+8+16+8+len(p))...)
+		b = append(b, 'm', 'o', 'o', 'v')
+		b = append(b, zzBE32(8+16+8+len(p))...)
+		b = append(b, 'u', 'u', 'i', 'd')
+		b = append(b, "\x85\xc0\xb6\x87\x82\x0f\x11\xe0\x81\x11\xf4\xce\x46\x2b\x6a\x48"...)
+		b = append(b, zzBE32(8+len(p))...)
+		b = append(b, 'C', 'M', 'T', '1')
+		b = append(b, p...)
+		b = append(b, 0, 0, 0, 8, 'f', 'r', 'e', 'e')
+		x, _ = DecodeCR3(zzReaderOf(b)) // (DecodeCR3 reports the end of the file after the last box as an error)
+	}
+	zzAssert(err == nil && x.ImageDescription == ref.ImageDescription, "a long text value decodes alike from every container")
 	zzReached("end")
 }
